@@ -331,6 +331,16 @@ def make(spec):
         cv2_rodrigues, rodrigues_vector_to_rotation_matrix, rotation_matrix_to_rodrigues_vector = [
             (lambda f: (lambda a, calculate_jacobian=False: f(a, calculate_jacobian)))(f)
             for f in (cv2_rodrigues, rodrigues_vector_to_rotation_matrix, rotation_matrix_to_rodrigues_vector)]
+    # and, for every fourth spec, the argument as a float32 array when every entry is exactly representable in single
+    # precision (half-integers, 0 / +-1 matrices): the same numbers; the documented result is a float64 computation
+    h32 = zlib.crc32(repr(sorted(spec.items(), key=lambda kv: kv[0])).encode() + b"32") % 4 == 0
+
+    def arg(a):
+        b = shcopy(a)
+        if h32 and isinstance(b, np.ndarray) and b.dtype == np.float64 and b.size and \
+                np.array_equal(b.astype(np.float32).astype(np.float64), b):
+            return b.astype(np.float32)
+        return b
     if spec["op"] == "fwd":
         arr = np.array(np.reshape(spec["r"], spec["shape"]), dtype=np.float64)
         th = math.sqrt(sum(Fraction(float(x)) ** 2 for x in spec["r"]))
@@ -338,10 +348,10 @@ def make(spec):
             return None
         if spec["via"] == "cv2":
             line = arr_line("rod.cv2", jac, arr).vec(np.eye(3))
-            impl = lambda: canon_cv2(cv2_rodrigues(shcopy(arr), calculate_jacobian=jac), jac)
+            impl = lambda: canon_cv2(cv2_rodrigues(arg(arr), calculate_jacobian=jac), jac)
         else:
             line = arr_line("rod.fwd", jac, arr)
-            impl = lambda: canon_fwd(rodrigues_vector_to_rotation_matrix(shcopy(arr), calculate_jacobian=jac), jac)
+            impl = lambda: canon_fwd(rodrigues_vector_to_rotation_matrix(arg(arr), calculate_jacobian=jac), jac)
         klass = "fwd/%s/%s/%s/%s" % (spec["stream"], "x".join(map(str, spec["shape"])), "jac" if jac else "nojac", spec["via"])
         c = Case(spec, line, impl, mode="float", klass=klass, scale=1.0)
         c.oracle = lambda _r: oracle_fwd(np.array(spec["r"], dtype=np.float64), spec["shape"])
@@ -352,10 +362,10 @@ def make(spec):
         br, _ok = branch_of_matrix(R)
         if spec["via"] == "cv2":
             line = arr_line("rod.cv2", jac, R).vec(P)
-            impl = lambda: canon_cv2(cv2_rodrigues(shcopy(R), calculate_jacobian=jac), jac)
+            impl = lambda: canon_cv2(cv2_rodrigues(arg(R), calculate_jacobian=jac), jac)
         else:
             line = arr_line("rod.inv", jac, R).vec(P)
-            impl = lambda: canon_fwd(rotation_matrix_to_rodrigues_vector(shcopy(R), calculate_jacobian=jac), jac)
+            impl = lambda: canon_fwd(rotation_matrix_to_rodrigues_vector(arg(R), calculate_jacobian=jac), jac)
         klass = "inv/%s/%s/%s/%s" % (spec["stream"], br, "jac" if jac else "nojac", spec["via"])
         c = Case(spec, line, impl, mode="float", klass=klass, scale=1.0)
         if spec["mat"]["m"] != "raw" or spec["mat"].get("rotation"):
@@ -369,9 +379,9 @@ def make(spec):
         if spec["fn"] != "fwd":
             line = line.vec(np.eye(3))
         if spec["fn"] == "cv2":
-            impl = lambda: canon_cv2(fn(shcopy(arr), calculate_jacobian=jac), jac)
+            impl = lambda: canon_cv2(fn(arg(arr), calculate_jacobian=jac), jac)
         else:
-            impl = lambda: canon_fwd(fn(shcopy(arr), calculate_jacobian=jac), jac)
+            impl = lambda: canon_fwd(fn(arg(arr), calculate_jacobian=jac), jac)
         c = Case(spec, line, impl, mode="float", klass="bad/%s/%s" % (spec["fn"], "x".join(map(str, spec["shape"])) or "scalar"),
                  trivial=True, scale=1.0)
         c.oracle = lambda r: oracle_bad(spec, r)
